@@ -510,7 +510,49 @@ fn shuffle<T>(rng: &mut Rng, v: &mut Vec<T>) {
     }
 }
 const EXT_KEYS: [&str; 12] = ["urgent_update", "_realm_id", "x", "é", "k\"q", "arg uments", "", "size2", "Status", "appid ", "😀", "a\\b"];
+/// Names the decoder's own source mentions: every string literal inside a `#[serde(..)]` attribute and every field
+/// identifier of protocol/response.rs, read from the repository under check.  They are tried as unknown keys, so a
+/// name the decoder newly gives a meaning to (an alias, a renamed field) is met in objects of every kind.
+fn mined_keys() -> &'static Vec<String> {
+    static KEYS: std::sync::OnceLock<Vec<String>> = std::sync::OnceLock::new();
+    KEYS.get_or_init(|| {
+        let repo = std::env::var("VERIF_REPO").unwrap_or_else(|_| "/repo".to_string());
+        let src = std::fs::read_to_string(format!("{}/omaha-client/src/protocol/response.rs", repo)).unwrap_or_default();
+        let mut out: Vec<String> = vec![];
+        for line in src.lines() {
+            let t = line.trim();
+            if t.contains("serde(") {
+                let mut parts = t.split('"');
+                parts.next();
+                while let Some(lit) = parts.next() { out.push(lit.to_string()); if parts.next().is_none() { break; } }
+            } else if let Some(rest) = t.strip_prefix("pub ") {
+                if let Some((name, _)) = rest.split_once(':') {
+                    if !name.is_empty() && name.chars().all(|c| c.is_ascii_lowercase() || c.is_ascii_digit() || c == '_') { out.push(name.to_string()); }
+                }
+            }
+        }
+        out.sort(); out.dedup();
+        // names this harness already knows as fields come up anyway; the others first
+        let all_known: Vec<&str> = [Kind::Wrapper, Kind::Response, Kind::DayStart, Kind::App, Kind::Ping, Kind::UpdateCheck, Kind::Urls, Kind::Url,
+                                    Kind::Manifest, Kind::Actions, Kind::Action, Kind::Packages, Kind::Package]
+            .iter().flat_map(|k| known(*k).iter().map(|(n, _)| *n)).collect();
+        let (novel, old): (Vec<String>, Vec<String>) = out.into_iter().partition(|n| !all_known.contains(&n.as_str()));
+        let mut v = vec![];
+        for _ in 0..4 { v.extend(novel.iter().cloned()); }
+        v.extend(old);
+        v
+    })
+}
+/// the mined names that are not a field of any struct as this harness knows the format
+fn novel_keys() -> Vec<String> {
+    let mut v: Vec<String> = vec![];
+    let m = mined_keys();
+    for (i, k) in m.iter().enumerate() { if m[..i].contains(k) && !v.contains(k) { v.push(k.clone()); } }
+    v
+}
 fn ext_key(rng: &mut Rng) -> String {
+    let mined = mined_keys();
+    if !mined.is_empty() && rng.chance(1, 3) { return rng.pick(mined).clone(); }
     if rng.chance(2, 3) { (*rng.pick(&EXT_KEYS)).to_string() } else { format!("_{}", rand_text(rng)) }
 }
 fn int_lit(rng: &mut Rng) -> String {
@@ -1184,6 +1226,17 @@ fn systematic_cases() -> Vec<Value> {
                 *node = J::Arr(elems);
             }
             v.push(case(&format!("sys-array-form-{:?}{:+}", kind, delta), &compact(&t), false, false));
+        }
+        // every name the decoder's source mentions beyond the known fields: added to the struct, and standing in for each field
+        for name in novel_keys() {
+            let mut t = full.clone();
+            if let J::Obj(_, kvs) = at(&mut t, path) { kvs.push((jk(&name), st("x"))); }
+            v.push(case(&format!("sys-mined-added-{:?}-{}", kind, name), &compact(&t), false, false));
+            for (i, f) in fields.iter().enumerate() {
+                let mut t = full.clone();
+                if let J::Obj(_, kvs) = at(&mut t, path) { kvs[i].0 = jk(&name); }
+                v.push(case(&format!("sys-mined-for-{:?}-{}-{}", kind, f, name), &compact(&t), false, false));
+            }
         }
     }
     v
